@@ -121,12 +121,14 @@ class DictArray(StorageBase):
         if splat_internal is None:
             splat_internal = bool(self.internal_shape)
         if not splat_internal:
-            data: np.ndarray = _masked_empty(self.shape)
+            # The trailing axis of length 1 keeps every assignment an element
+            # assignment, also when there are no external axes (`shape == ()`).
+            data: np.ndarray = _masked_empty((*self.shape, 1))
             mask: np.ndarray = np.full(self.shape, fill_value=True, dtype=bool)
             for external_index, value in self._dict.items():
-                data[external_index] = value
+                data[(*external_index, 0)] = value
                 mask[external_index] = False
-            return np.ma.MaskedArray(data, mask=mask, dtype=object)
+            return np.ma.MaskedArray(data[..., 0], mask=mask, dtype=object)
         if not self.internal_shape:
             msg = "internal_shape must be provided if splat_internal is True"
             raise ValueError(msg)
@@ -153,7 +155,7 @@ class DictArray(StorageBase):
 
     def mask_linear(self) -> list[bool]:
         """Return a list of booleans indicating which elements are missing."""
-        return list(self.mask.data[:].flat)
+        return list(self.mask.data.flat)
 
     def dump(self, key: tuple[int | slice, ...], value: Any) -> None:
         """Dump 'value' into the location associated with 'key'.
